@@ -666,8 +666,15 @@ def shared_name_groups(rng):
             calls = [{"k": "n", "names": a}, {"k": "e", "names": b}]
             if len(groups) % 3 == 1:
                 calls.reverse()
+            # every selection (the EMPTY one included) also through geff.read of each backend: the adapter layer
+            # (_backend_protocol.Backend.read) hands the selection on and must not read [] as "everything"
             groups.append({"graph": g, "fmt": 2 + len(groups) % 2, "writer": "direct", "calls": calls, "queries": queries,
-                           "rtm": [a, b], "stream": "shared-names"})
+                           "rtm": [a, b], "backends": ["networkx", "rustworkx"], "stream": "shared-names"})
+    # None (= all properties) on either side, next to [], one name and all names
+    for a, b in [(None, None), (None, []), ([], None), (None, ["a"]), (["c"], None), (None, ["a", "b", "d"]), (["a", "b", "c"], None)]:
+        groups.append({"graph": g, "fmt": 2 + len(groups) % 2, "writer": "direct",
+                       "calls": [{"k": "n", "names": a}, {"k": "e", "names": b}], "queries": queries,
+                       "rtm": [a, b], "backends": ["networkx", "rustworkx"], "stream": "selection-none"})
     return groups
 
 
@@ -833,6 +840,9 @@ def judge(ck, case, im, mo, lean_spec):
         judge_history(ck, case, im, mo, full, small, closed)
         return
     nsel, esel = im["nsel"], im["esel"]
+    if case.get("rtm"):     # None = every stored property
+        case = {**case, "rtm": [[p["name"] for p in full["node_props"]] if case["rtm"][0] is None else case["rtm"][0],
+                                [p["name"] for p in full["edge_props"]] if case["rtm"][1] is None else case["rtm"][1]]}
     for be, ob in (im.get("backends") or {}).items():
         def present(names, fullprops, count):
             by = {p["name"]: p for p in fullprops}
